@@ -121,6 +121,10 @@ SynsetNavOK(W, o, t) ==
             /\ \A k \in DOMAIN ss : Ent(t[4][2][k]) = <<SRow(o, Ent(ss[k]))[3][2], SRow(o, Ent(ss[k]))[3][3]>>
        ELSE t[4][1] = "err"
   /\ t[5][1] = (IF HasIli(W, Ent(t)) THEN IliOf(W, Ent(t)) ELSE "~")
+  \* synset.lemmas() is the image of synset.words(), in order, repetitions included
+  /\ (t[4][1] = "ok" /\ \A k \in DOMAIN t[4][2] : t[4][2][k][1] \in W.I) =>
+       /\ t[13][1] = "ok" /\ Len(t[13][2]) = Len(t[4][2])
+       /\ \A k \in DOMAIN t[4][2] : t[13][2][k] = LemmaOf(W, Ent(t[4][2][k]))
 \* inverse laws on the observations: a sense is among the senses of its word / synset
 InverseOK(W, o) ==
   \A t \in Rng(o.S) :
@@ -133,6 +137,23 @@ TranslateOK(W, x, tr) ==
   \A p \in Rng(tr) :
      IF SelectError(Db(W.T, W.inst), p[1], "~") /\ HasIli(W, x) THEN p[2][1] = "err"
      ELSE p[2][1] = "ok" /\ Ents(p[2][2]) = Translate(W, x, p[1]) /\ NoDup(p[2][2])
+
+\* TS rows: <<o, id, <<<<target, <<st, senses>>>>...>>>>: the senses of the translated synsets
+SenseTranslateOK(W, o, t) ==
+  LET s == Ent(t) IN
+  \A p \in Rng(t[3]) :
+     \* sense.translate() goes through sense.synset(): claimed when that is in scope
+     DeclSynset(W, s)[1] \in ScopeOf(W, s) =>
+       IF SelectError(Db(W.T, W.inst), p[1], "~") /\ HasIli(W, DeclSynset(W, s)) THEN p[2][1] = "err"
+       ELSE p[2][1] = "ok" /\ Ents(p[2][2]) = TranslateSenses(W, DeclSynset(W, s), p[1])
+\* TW rows: <<o, id, <<<<target, st, <<<<sense, <<words>>>>...>>>>...>>>>: word.translate() maps
+\* each sense of the word to the words of its translated senses
+WordTranslateOK(W, o, t) ==
+  \A p \in Rng(t[3]) : p[2] = "ok" =>
+     \A q \in Rng(p[3]) :
+        LET s == Ent(q[1]) IN
+          (HasSRow(o, s) /\ DeclSynset(W, s)[1] \in ScopeOf(W, s)) =>
+             Ents(q[2]) = {DeclWord(W, z) : z \in TranslateSenses(W, DeclSynset(W, s), p[1])}
 
 (* ---- relations (C11) ------------------------------------------------------ *)
 \* relation_map rows: <<name, source id, target id, lexicon, subtype, note, <<o, id>>>>
@@ -251,6 +272,7 @@ ObsFails(r, T, inst, o) ==
   LET W == Wn(T, inst, o.cfg)
       N1(t) == SenseNavDev(W, t)   N2(t) == WordNavOK(W, o, t)   N3(t) == SynsetNavOK(W, o, t)
       N4(t) == TranslateOK(W, Ent(t), t[10])
+      N5(t) == SenseTranslateOK(W, o, t)    N6(t) == WordTranslateOK(W, o, t)
       A1(t) == TextsOK(W, t)
       F1(t) == FormsOK(W, t) \/ DevFormsOfUnselectedExtension(W, t)
       F2(t) == TagsOK(W, t) \/ DevTagsOfUnselectedExtension(W, t)
@@ -266,6 +288,8 @@ ObsFails(r, T, inst, o) ==
                               \cup Rows(Rng(o.W), N2, "WordNavigation", o)
                               \cup Rows(Rng(o.Y), N3, "SynsetNavigation", o)
                               \cup Rows(Rng(o.Y), N4, "Translate", o)
+                              \cup Rows(Rng(o.TS), N5, "SenseTranslate", o)
+                              \cup Rows(Rng(o.TW), N6, "WordTranslate", o)
                               \cup Cl(InverseOK(W, o), "InverseNavigation", o)
                               \cup Cl(\A q \in Rng(o.ident) : \A b \in Rng(q) : b, "EqualAndHashAlike", o)
                               ELSE {})
